@@ -88,7 +88,8 @@ def make_interesting(rnd, files, rules):
 
 def gen_scenario(rnd, profile='contract', k=None, npasses=None, maxops=5, sched_len=None):
     k = k or rnd.choice([1, 1, 2, 2, 3])
-    names = ['f0.c', 'b/f1.c', 'f2.c'][:k]
+    # (one layout in four: the same base name in different directories)
+    names = (['f0.c', 'b/f0.c', 'c/d/f0.c'] if rnd.random() < 0.25 else ['f0.c', 'b/f1.c', 'f2.c'])[:k]
     files = [(names[i], gen_content(rnd)) for i in range(k)]
     maxlen = max(len(c) for _, c in files)
     rules = make_interesting(rnd, files, gen_rules(rnd, k, profile))
@@ -149,7 +150,8 @@ def gen_revisit(rnd, k=None, alphabet='ab'):
     the same pass meets the same file content (and the same joint contents) again and again —
     what the pass cache is about."""
     k = k or rnd.choice([1, 2, 2])
-    names = ['f0.c', 'b/f1.c', 'f2.c'][:k]
+    # (one layout in four: the same base name in different directories)
+    names = (['f0.c', 'b/f0.c', 'c/d/f0.c'] if rnd.random() < 0.25 else ['f0.c', 'b/f1.c', 'f2.c'])[:k]
     files = [(names[i], ''.join(rnd.choice(alphabet) for _ in range(rnd.randint(2, 3)))) for i in range(k)]
 
     def op():
